@@ -5,7 +5,9 @@ set -u
 P="$(realpath "$1")"; ID="$2"; TIER="${3:-quick}"
 mkdir -p /verif/work
 exec 9>/verif/work/repo.lock
+touch /verif/work/mut.pending.$$      # new checks wait while a mutant run is queued (no starvation)
 flock -x 9
+rm -f /verif/work/mut.pending.$$
 if ! git -C /repo diff --quiet; then echo "refusing: /repo has uncommitted changes"; exit 3; fi
 git -C /repo apply "$P" || { echo "patch does not apply"; exit 3; }
 LOG=$(mktemp)
